@@ -6,18 +6,28 @@ SPEC = dict(
              "SimbodyProofs/C07.lean", "Drivers/C07.lean"],
     n=dict(quick=760, thorough=19000),
     rtol=1e-9, atol=1e-12,
-    rule="case k: constraint type k mod 19 (all built-in types + a Custom one), random tree of 2-6 bodies drawn from 13 "
-         "mobilizer types (random frames, Euler/quaternion), random attachment (Ground+body / ancestor-descendant / "
+    rule="case k: constraint type k mod 19 (all built-in types + a Custom one), random tree of 2-6 bodies drawn from 18 "
+         "mobilizer types, each reversed with probability 1/4 (random frames, Euler/quaternion; trees with Line mobilizers Euler only), random attachment (Ground+body / ancestor-descendant / "
          "unrelated branches), random VIOLATED state and, when System::project succeeds, the same system on the "
          "manifold; 15 types are compared with the Lean model (perr, verr, aerr at arbitrary udot, constraint forces), "
          "all 19 go through the implementation-only predicates (finite differences, G/Gt/Pq operator identities, "
          "virtual work); distinct = distinct input records",
-    partial="proved per type for Rod, Ball, Weld, PointInPlane, PointOnLine, ConstantAngle, ConstantOrientation, NoSlip1D, "
-            "PointOnPlaneContact, ConstantCoordinate/Speed/Acceleration, PrescribedMotion, Coordinate/SpeedCoupler "
-            "(relative to the user Function's derivatives); SphereOnPlaneContact, SphereOnSphereContact, "
-            "LineOnLineContact and Custom are correspondence-only (finite-difference and adjoint predicates on the "
-            "implementation); the Ground->Ancestor conversion and the tree Jacobian J are tied by correspondence "
-            "(J itself is C04); Rod's singular branch r<TinyReal is not generated",
+    partial="clause by clause: (1) verr = d/dt perr and aerr = d/dt verr: PROVED about the executed model per type for Rod, "
+            "PointInPlane, PointOnLine, ConstantAngle, ConstantOrientation, PointOnPlaneContact (exact), Ball / Weld (exact relation "
+            "the code satisfies + on-manifold corollary: known finding off the manifold), NoSlip1D (exact relation with the missing "
+            "term: known finding), CoordinateCoupler (acceleration level, relative to the user Function's Hessian); the "
+            "mobility-level types (ConstantCoordinate/Speed/Acceleration, PrescribedMotion, first level of the couplers) are "
+            "definitional and only compared; SphereOnPlaneContact, SphereOnSphereContact, LineOnLineContact and Custom are "
+            "PREDICATE-ONLY (finite differences on the implementation); (2) Pq = d perr/dq: PREDICATE-ONLY (pq_fd, pq_cols, "
+            "pq_N_is_P) - the per-type theorems give d perr along any rigid motion = pverr, the chain through the tree Jacobian "
+            "and N is C03/C04; (3) G explicit = O(n) = transpose: PREDICATE-ONLY at system level (g_cols, gt_is_transpose, "
+            "gt_mul, g_adjoint, virtual_work); PROVED per type: force_adjoint in the ancestor frame, forces_balance, and for "
+            "any ancestor relVel_adjoint / ground_adjoint_two (instantiated: PointInPlane.ground_adjoint, Ball.ground_adjoint): "
+            "forces re-expressed in Ground on the constrained bodies only are the transpose of the velocity error; the tree "
+            "Jacobian J / ~J adjointness is C04.  Model comparison of the mobility-level types only on mobilizers with N = I "
+            "(qforce -> ~N qforce and quaternion rows are predicate-only); Rod's singular branch r<TinyReal, ConstantAngle with "
+            "parallel axes, coincident sphere centres, parallel LineOnLine edges, Custom mobilizers and quaternion-mode "
+            "LineOrientation/FreeLine are not generated; the statement that ~R_GA R_GB turns with w_AB is not proved",
     assumptions=["derivative = eps-part over the dual numbers along rigid motions Rdot=[w]xR, pdot=v (DESIGN §3 item 6)",
                  "libm sqrt / division enter Rod as parameters with r*r = p.p, r != 0, 2 != 0",
                  "user Functions of the coupler constraints are trusted to return their own derivatives"],
